@@ -1,0 +1,22 @@
+//go:build verif
+
+// Contracts for the verification machinery in /verif (comment-only; compiled only with -tags verif).
+package wrkchain
+
+// Genesis export (C15): every exported registration is internally consistent - the counters that the import stores
+// verbatim are recomputed from the exported record list (number of records, lowest exported height), the identity
+// fields and the last height are copied from the stored registration, and the limit is the stored limit - so that a
+// chain initialised from the document satisfies the retention invariant for exactly the records it was given.
+//@ func ExportGenesis(ctx, k) (gs)
+//@   props C15
+//@   pure
+//@   requires wrkHighestSet(wrk_store) ==> len(wrk_store[kHighest]) == 8
+//@   let recs := gs.RegisteredWrkchains
+//@   ensures @counters_match_exported_records forall j int :: {recs[j]} 0 <= j && j < len(recs) ==> recs[j].Wrkchain.NumBlocks == len(recs[j].Blocks) && recs[j].Wrkchain.LowestHeight == (len(recs[j].Blocks) > 0 ? recs[j].Blocks[0].He : 0)
+//@   ensures @limit_as_stored forall j int :: {recs[j]} 0 <= j && j < len(recs) && limHas(wrk_store, recs[j].Wrkchain.WrkchainId) ==> recs[j].InStateLimit == limGet(wrk_store, recs[j].Wrkchain.WrkchainId)
+//@   ensures @params_and_next_id wrkParamsSet(wrk_store) ==> gs.Params == wrkParams(wrk_store)
+//@   ensures @next_id wrkHighestSet(wrk_store) ==> wrkHighestIs(wrk_store, gs.StartingWrkchainId)
+//@   loop 0: invariant 0 - 1 <= rangeindex && rangeindex < len(wrkChains) && len(records) == rangeindex + 1
+//@   loop 0: invariant forall j int :: {records[j]} 0 <= j && j < len(records) ==> records[j].Wrkchain.NumBlocks == len(records[j].Blocks) && records[j].Wrkchain.LowestHeight == (len(records[j].Blocks) > 0 ? records[j].Blocks[0].He : 0)
+//@   loop 0: invariant forall j int :: {records[j]} 0 <= j && j < len(records) ==> records[j].Wrkchain.WrkchainId == wrkChains[j].WrkchainId && records[j].Wrkchain.Owner == wrkChains[j].Owner && records[j].Wrkchain.Lastblock == wrkChains[j].Lastblock && records[j].Wrkchain.Moniker == wrkChains[j].Moniker
+//@   loop 0: invariant forall j int :: {records[j]} 0 <= j && j < len(records) && limHas(wrk_store, records[j].Wrkchain.WrkchainId) ==> records[j].InStateLimit == limGet(wrk_store, records[j].Wrkchain.WrkchainId)
